@@ -85,6 +85,7 @@ MUTANTS = {
                 "else pad_slice_path(oriQ, self._position)\n"},
     ],
     "C10": [
+        {"name": "revert_fix_move_alias", "kind": "revert", "commit": "0dc79df"},
         {"name": "children_rotate_about_own_centre", "kind": "sub", "file": BT,
          "old": "            child._rotate(rotation, anchor=anchor, start=start, parent_path=ppth)\n",
          "new": "            child._rotate(rotation, anchor=anchor, start=start, parent_path=None if parent_path is not None else ppth)\n"},
